@@ -1,6 +1,7 @@
 package rules
 
 import (
+	"go/token"
 	"golang.org/x/tools/go/ssa"
 
 	"p2pverif/core"
@@ -72,6 +73,49 @@ func c06(r *core.Report) {
 	// callback re-arming its own timer
 	r.Rule("C06-RETRANSMIT-TIMER", "the timer's fire routine clears its pending flag before the callback and never after it; Reset sets it", 3)
 	ruleTimer(r, "C06-RETRANSMIT-TIMER")
+	// ---- C06-ID-KEPT (after seed C06-s7): Channel.Deliver recognises a retransmitted InitHello by comparing its hash
+	// with the ID of each session slot ("repeated InitHello, nothing to do"). The ID is given to the entry when the
+	// session is proposed; promotion must carry the whole entry over, or a late duplicate of the InitHello that
+	// created the established session is answered as a new handshake and parks a responder session that can
+	// never complete.
+	r.Rule("C06-ID-KEPT", "Channel.setCurrent installs the entry it is given unchanged (the InitHello hash stays with the promoted session)", 1)
+	if sc := needFn(r, "p/p2pke", "Channel.setCurrent"); sc != nil {
+		r.Analysed(sc)
+		n, okAll := 0, true
+		for _, in := range core.AllInstrs(sc) {
+			st, isSt := in.(*ssa.Store)
+			if !isSt {
+				continue
+			}
+			ia, isIA := st.Addr.(*ssa.IndexAddr)
+			if !isIA {
+				continue
+			}
+			if f, _ := core.FieldOfAddr(ia.X); f == nil || f.Name() != "sessions" {
+				continue
+			}
+			n++
+			good := false
+			switch v := st.Val.(type) {
+			case *ssa.Parameter:
+				good = true
+			case *ssa.UnOp:
+				if v.Op == token.MUL {
+					if ia2, ok := v.X.(*ssa.IndexAddr); ok {
+						if f, _ := core.FieldOfAddr(ia2.X); f != nil && f.Name() == "sessions" {
+							good = true // a slot moved as a whole
+						}
+					}
+				}
+			}
+			if !good {
+				okAll = false
+			}
+		}
+		r.Check(okAll && n > 0, "C06-ID-KEPT", core.FnName(sc), r.P.Pos(sc.Pos()), "slots receive the parameter or another slot as a whole",
+			"setCurrent rebuilds the entry it installs: the InitHello hash (entry ID) is not carried over, so a late duplicate of the InitHello behind the established session is no longer recognised and is answered as a new handshake")
+	}
+
 	// ---- C06-INFLIGHT-KEPT: a handshake in flight survives until its own expiry. expireSessions runs on every
 	// Send/WaitReady/rekey; if it empties the prospective (or previous) slot for any other reason, a second caller
 	// arriving while a reply is delayed throws the in-flight session away, the peer keeps answering the old
